@@ -11,12 +11,19 @@ pub enum Who {
     Name(&'static str),
     /// its `Debug` impl panics
     Boom,
+    /// its `Debug` impl creates (and drops) a span of its own before it writes the name: re-entrancy into whatever
+    /// collector is formatting or matching the field
+    Nested(&'static str),
 }
 impl std::fmt::Debug for Who {
     fn fmt(&self, f: &mut std::fmt::Formatter<'_>) -> std::fmt::Result {
         match self {
             Who::Name(n) => f.write_str(n),
             Who::Boom => panic!("injected panic in the Debug impl of a span field"),
+            Who::Nested(n) => {
+                drop(tracing::span!(target: "c07aux", Level::DEBUG, "nested_helper"));
+                f.write_str(n)
+            }
         }
     }
 }
